@@ -37,7 +37,8 @@ def _tv():
     base = st.one_of(
         st.integers(-LIMIT + 1, LIMIT - 1),
         st.integers(-5000, 5000),
-        st.sampled_from([-1, 0, 1, 999, 1000, 1001, 999999, 1000000, 1000001, -1000, -1000000]),
+        st.integers(-4, 4),  # neighbours of zero and of the 'invalid' marker -1 (hash(-1) is -2 in CPython)
+        st.sampled_from([-2, -1, 0, 1, 999, 1000, 1001, 999999, 1000000, 1000001, -1000, -1000000]),
     )
     return st.builds(build, st.sampled_from(["US", "MS", "S"]), base)
 
